@@ -8,6 +8,8 @@ use std::collections::HashMap;
 use std::panic::{catch_unwind, AssertUnwindSafe};
 use std::str::FromStr;
 
+mod specval;
+
 #[path = "scope_under_test.rs"]
 #[allow(dead_code)]
 mod scope_under_test;
@@ -510,6 +512,7 @@ fn main() {
                 }
             }
         }
+        "specval" => specval::run(args[1].parse().unwrap(), args[2].parse().unwrap()),
         "f32parse" => {
             // model validation S3/S4: f32 text <-> bits
             let s = String::from_utf8(unhex(&args[1])).unwrap();
